@@ -5,7 +5,7 @@ ROOT = os.path.dirname(os.path.dirname(os.path.abspath(__file__)))
 
 NOTES = {
  "C01": ("refinement theorem `C01.refines_map`: for every history of Insert/Delete/Search and every key transformation with prefix-free inserted keys, the tree model returns exactly what the ideal map returns and denotes exactly its state (induction over the history from `insert_spec`, `deleteNode_spec`, `search_sound/complete`); tied to the code by structural + observable correspondence on generated histories of all six kinds and all key types; `C01Loops.checkPrefix_spec`, `prefixMismatch_spec`: the Go helpers `(*node).checkPrefix` and `prefixMismatch`, regenerated statement by statement from tree.go on every run (`Gen/Loops.lean`), return the model's `checkPrefixOk` / `T.prefixMismatch` values and never index out of range",
-         "model of trees.go/collation.go/tree.go/node.go hand-written, tied by correspondence only on generated inputs; keys containing 0x00 in byte-string trees are outside the contract (known finding D3)", "DESIGN §5 C01"),
+         "model of trees.go/collation.go/tree.go hand-written, tied by correspondence only on generated inputs (node.go, node4.go, keys.go, the node16 assembly and the scan loops of tree.go are regenerated from the source on every run); keys containing 0x00 in byte-string trees are outside the contract (known finding D3)", "DESIGN §5 C01"),
  "C02": ("`all_eq_items`, `backward_eq_reverse` (explicit-stack loops = early-exit fold over the in-order leaves), `items_strictly_sorted`, `items_complete`, `lexLt_terminated` (order of terminated byte strings = bytewise order of the originals); numeric orders via C07; `C02Raw.raw_all_after_history`: the same for the tree of RAW node records – `all()`/`backward()` with the per-class loops of tree.go (lanes below childrenLen, the 256 index bytes of a node48, the 256 slots of a node256) never pop a nil reference and hand the consumer exactly Layer T's items, after any history",
          "collator order = byte order of collate.Key (x/text contract); correspondence on generated histories", "DESIGN §5 C02"),
  "C03": ("`range_eq_filter`, `rangeNum_eq_filter`, `rangeOpen_eq_filter`, `range_empty`: the pruned scan with per-entry depth equals the filter of the sorted content by the inclusive bounds, for both bound orders, equal bounds, open end, empty tree; `C03Raw.raw_range_after_history`: `rangeScan` over raw node records (per-class loops, raw header) is that filter after any history; `C03Loops.longestCommonPrefix_spec`: the regenerated Go `longestCommonPrefix` is the model's `lcpLen`",
@@ -18,11 +18,11 @@ NOTES = {
  "C08": ("`terminated_sortkeys_prefix_free`, `collation_refines_map`, `lexLt_terminated2`: for every sort-key function whose keys are distinct, never continue one another with 00 00 and never differ by one trailing 00, C01–C06 hold on original strings and the terminator keeps the order",
          "x/text collate.Key is a parameter: `KeysOK` is assumed of it and measured on every generated pair; collator order = byte order of keys is x/text's contract", "DESIGN §5 C08"),
  "C09": ("`compound_refines_map` for every injective prefix-free codec; `fixed_then_tail_prefixFree`, `tuple_order`, schema instances from C07", "codecs generated from random field schemas; user codecs outside the contract are not claimed", "DESIGN §5 C09"),
- "C10": ("`find_spec`, `abs_sorted`, `add_spec`, `remove_spec`, `mergeHdr_spec` for all four classes incl. every grow/shrink, SWAR lemmas (`searchNode4_spec`, `insertPosNode4_spec`, lane permutations) on the definitions regenerated from node4.go; `C10Asm.amd64_searchNode16_spec` / `amd64_insertPosNode16_spec`: the two routines of node16_amd64.s, regenerated instruction by instruction into `Gen/Asm.lean` and run on an instruction model, return the lane-level scalar scan for every register file on entry, every content of all sixteen lanes and every fill ≤ 16 (`amd64_stale_lanes_irrelevant`); `C10Arm64.*`: on an (unvalidated) instruction model node16_arm64.s ignores the fill count and a reachable node16 makes findChild return a deleted child – a model-level finding, no verdict depends on it",
-         "bv_decide native axioms for the SWAR and assembly lemmas (disclosed); Model/Amd64.lean (meaning of sixteen instructions) is trusted and executed next to the real routines on every run (asmdrv); the portable node16 routines are tied to the lane-level model by correspondence (GOARCH=386 legs, structured exhaustive sweep in the thorough tier); node16_arm64.s cannot be run here: its model is not validated beyond the decoding of its raw WORDs by the Go disassembler, and C10 is claimed for amd64 and the portable routines only", "DESIGN §5 C10, §10.7, §10.8"),
- "C11": ("`C11RawTree.rtree_refines_map` (a tree of RAW node records – SWAR word, lanes, index, slots – simulates the abstract tree for Search/Insert/Delete and keeps `Raw.inv` on every node), `wf_step`, `wf_after_history`, `stored_key_reachable`, `keys_below_share_path`, `thresholds_consistent` on regenerated constants; raw invariant + abstraction checked by the Lean driver on a dump after every operation; the tree of RAW node records (`Model/RTree`, the subject of `C11RawTree.rtree_refines_map`) is run in lockstep by the correspondence driver and compared with every real dump field by field – class, childrenLen, prefixLen, all ten prefix bytes, every lane / index byte including unoccupied ones, the occupancy of every slot, the slot of every child",
+ "C10": ("`find_spec`, `abs_sorted`, `add_spec`, `remove_spec`, `mergeHdr_spec` for all four classes incl. every grow/shrink, SWAR lemmas (`searchNode4_spec`, `insertPosNode4_spec`, lane permutations) on the definitions regenerated from node4.go; `C10Asm.amd64_searchNode16_spec` / `amd64_insertPosNode16_spec`: the two routines of node16_amd64.s, regenerated instruction by instruction into `Gen/Asm.lean` and run on an instruction model, return the lane-level scalar scan for every register file on entry, every content of all sixteen lanes and every fill ≤ 16 (`amd64_stale_lanes_irrelevant`); `C10Arm64.*`: on an (unvalidated) instruction model node16_arm64.s ignores the fill count and a reachable node16 makes findChild return a deleted child – a model-level finding, no verdict depends on it; `C10NodeOps.go_findChild_is_table_lookup`, `go_addChild_inserts`, `go_deleteChild_removes`: the child-table methods of node.go – `(*nodeRef).findChild/addChild/deleteChild`, and addChild/deleteChild/clear of node4, node16, node48, node256 with every class change (4→16→48→256, 256→48→16→4, their five loops) and the node4 collapse – regenerated statement by statement into `Gen/NodeOps.lean` on every run, compute `Raw.find/add/remove/mergeHdr` (`Proofs/GenNodeOps`, kernel only) and are therefore (`Proofs/RawNodes`) a correct ordered byte→child table for every node content, probe byte and zeroed pool",
+         "Model/GoNode.lean (Go slice/copy/index semantics on fixed arrays, uint8/uint32 wrap-around, nil pointer = none, sync.Pool.Get = a parameter) is a trusted reading, exercised by the field-by-field comparison of every real dump with the raw-node model the regenerated code is proved equal to; bv_decide native axioms for the SWAR and assembly lemmas (disclosed); Model/Amd64.lean (meaning of sixteen instructions) is trusted and executed next to the real routines on every run (asmdrv); the portable node16 routines are tied to the lane-level model by correspondence (GOARCH=386 legs, structured exhaustive sweep in the thorough tier); node16_arm64.s cannot be run here: its model is not validated beyond the decoding of its raw WORDs by the Go disassembler, and C10 is claimed for amd64 and the portable routines only", "DESIGN §5 C10, §10.7, §10.8"),
+ "C11": ("`C11RawTree.rtree_refines_map` (a tree of RAW node records – SWAR word, lanes, index, slots – simulates the abstract tree for Search/Insert/Delete and keeps `Raw.inv` on every node), `wf_step`, `wf_after_history`, `stored_key_reachable`, `keys_below_share_path`, `thresholds_consistent` on regenerated constants; raw invariant + abstraction checked by the Lean driver on a dump after every operation; the tree of RAW node records (`Model/RTree`, the subject of `C11RawTree.rtree_refines_map`) is run in lockstep by the correspondence driver and compared with every real dump field by field – class, childrenLen, prefixLen, all ten prefix bytes, every lane / index byte including unoccupied ones, the occupancy of every slot, the slot of every child; `C11NodeOps.go_collapse_merges_paths`: the path merge of `node4.deleteChild` as regenerated from node.go (nested `if prefix < maxPrefixLen`, two `copy`s, uint32 arithmetic) writes `Raw.mergeHdr` into the surviving child – path ++ branch byte ++ child path, ten bytes inline, exact length; `go_addChild_keeps_wellformed`",
          "recorded fan-out of a node256 holding 256 children is 0 (known finding D10)", "DESIGN §5 C11"),
- "C12": ("`clear_covers_all_fields`, `pool_sites_match_type`, `put_after_clear_and_unlink` decided on fact tables regenerated from node.go/pool.go; `world_step_independent`, `emptied_is_init`; interleaved multi-tree correspondence",
+ "C12": ("`clear_covers_all_fields`, `pool_sites_match_type`, `put_after_clear_and_unlink` decided on fact tables regenerated from node.go/pool.go; `world_step_independent`, `emptied_is_init`; interleaved multi-tree correspondence; `C12NodeOps.go_clear_is_zero`, `go_addChild_keeps_pools_zero`, `go_node16_shrink_releases_zero`: on node.go as regenerated from the source, every node handed to `Put` is the zero image under the pool index of its own class whenever the pools hold zero images (the pool invariant is inductive for the translated code), and grown nodes are built from the zero image",
          "partial: sync.Pool itself and object identity are outside the model; the tie is the per-tree correspondence of interleaved histories", "DESIGN §5 C12"),
  "C13": ("`caller_bytes_unchanged`, `leaf_storage_fresh`, `leaf_storage_content`, `caller_scribble_does_not_reach_leaf` on a slice micro-model of the key prologue; alias leg with canaries and buffer reuse on the real code",
          "partial: Go slice semantics hand-modelled (40 lines)", "DESIGN §5 C13"),
